@@ -65,6 +65,7 @@ package graph
 
 //@ func tarjan.strongConnect
 //@   option slice-wf
+//@   option wf-loads
 //@   option callback-frame
 //@   requires wfTarjan(t) && wfGraph(t) && wfStack(t) && wfIndex(t) && wfOn(t) && 0 <= v && v < len(t.graph) && t.index[v] == -1 && t.callback != nil
 //@   modifies t.curr, t.stack, t.stack[0:cap(t.stack)], t.index[0:len(t.index)], t.lowLink[0:len(t.lowLink)], t.onStack[0:len(t.onStack)]
@@ -98,6 +99,7 @@ package graph
 // run: sets up the bookkeeping and visits every vertex (graphs with fewer than two vertices are skipped).
 //@ func tarjan.run
 //@   option slice-wf
+//@   option wf-loads
 //@   requires t.callback != nil && len(t.graph) <= 1000000000
 //@   requires forall r in 0..len(t.graph) :: forall k in 0..len(t.graph[r]) :: 0 <= t.graph[r][k] && t.graph[r][k] < len(t.graph)
 //@   modifies t.curr, t.stack, t.index, t.lowLink, t.onStack
